@@ -40,6 +40,12 @@ def jsonable(obj):
     return str(obj)
 
 
+def crash_facts(err) -> dict:
+    tb = traceback.extract_tb(err.__traceback__)
+    return {"exception": type(err).__name__, "message": str(err)[:200],
+            "where": [f"{os.path.basename(f.filename)}:{f.name}" for f in tb[-4:]]}
+
+
 def digest(obj) -> str:
     return hashlib.sha1(json.dumps(jsonable(obj), sort_keys=True).encode()).hexdigest()[:16]
 
